@@ -51,6 +51,13 @@ struct Replica {
     plan: Arc<FaultPlan>,
 }
 
+thread_local! {
+    /// the current case runs its targets on a NEW OverlayFS instance over the layers the history
+    /// was executed on (a re-opened overlay: whatever an instance caches must be rebuilt correctly,
+    /// also when the very first calls it makes fail)
+    static FRESH_INSTANCE: Cell<bool> = Cell::new(false);
+}
+
 fn replica(cfg: &Cfg, prepop: &Prepop, prefix: &[Op]) -> Result<Replica, String> {
     let plan = FaultPlan::new();
     let counter = Cell::new(0usize);
@@ -60,8 +67,12 @@ fn replica(cfg: &Cfg, prepop: &Prepop, prefix: &[Op]) -> Result<Replica, String>
         counter.set(id + 1);
         Arc::new(FaultFS { inner: fs, layer: id, plan: p2.clone() })
     })?;
+    let mut built = built;
     for op in prefix {
         let _ = exec(&built.root, op);
+    }
+    if FRESH_INSTANCE.with(|f| f.get()) && matches!(cfg, Cfg::Ovl(_) | Cfg::OvlSub(..)) && !built.layers.is_empty() && !prefix.is_empty() {
+        built.root = vfs::VfsPath::new(vfs::OverlayFS::new(&built.layers));
     }
     Ok(Replica { built, plan })
 }
@@ -113,6 +124,11 @@ fn test(case: &Case, st: &mut Stats, counting: bool, handle_io: bool) -> CaseRes
     let r = guarded(|| -> Result<(), (String, Value)> {
         let noinfo = |m: String| (m, json!({}));
         // resolve the prefix once, on a first replica
+        let fresh = matches!(cfg, Cfg::Ovl(_) | Cfg::OvlSub(..)) && (case.base.ops.len() + case.targets.len()) % 2 == 0;
+        FRESH_INSTANCE.with(|f| f.set(fresh));
+        if fresh {
+            local.label("cases_with_targets_on_a_new_overlay_instance_over_the_used_layers");
+        }
         let first = replica(cfg, &prepop, &[]).map_err(noinfo)?;
         let mut model = snapshot(&first.built.root).tree;
         let mut prefix: Vec<Op> = vec![];
@@ -278,7 +294,7 @@ pub fn replay(v: &Value) -> CaseResult {
     test(&Case { base, targets }, &mut st, false, handle_io)
 }
 
-const RULE: &str = "stacks (plain backend, altroot, overlay with 1..3 layers incl. altroot/overlay layers, altroot over overlay, overlay on sub-paths) with EVERY leaf backend wrapped in FaultFS; a generated history of <=12 ops establishes a state, then 1..2 target ops (biased to create_dir_all, remove_dir_all, copy/move file/dir, walk_dir, read_to_string, plus adapter primitives and observers) are run: first fault-free on a replica to count the N trait calls reaching any leaf and to record result R* and post-state S*, then for EVERY k<N (cap 400) on a fresh replica rebuilt by deterministic replay with the k-th call failing with an I/O error (a second pass also counts and fails the reads/writes on file handles handed out by the wrapped filesystems); oracle per injection: no panic, lower overlay layers unchanged, and if the faulted run returns Ok then R* is Ok, the value equals R* and the tree observed with faults disarmed equals S*, and a fixed list of fault-free follow-up calls on the target, its destination and their parents has the same outcomes and leaves the same trees as after a fault-free run (state hidden behind a right-looking listing); PLUS the same enumeration on the async port: memory-backed stacks with every leaf behind PendFS (Pending returns per a generated plan, then the k-th trait call fails), targets walk_dir / copy_dir / move_dir / remove_dir_all / copy_file / create_dir_all, every k < N (cap 250): Ok only with the fault-free value and tree; evaluations = injections; non-trivial = injection at k>=1 into a target making >=2 underlying calls, distinct by (stack, target, k)";
+const RULE: &str = "stacks (plain backend, altroot, overlay with 1..3 layers incl. altroot/overlay layers, altroot over overlay, overlay on sub-paths) with EVERY leaf backend wrapped in FaultFS; a generated history of <=12 ops establishes a state, then 1..2 target ops (for half of the top-level overlays on a NEW OverlayFS instance constructed over the layers the history ran on; biased to create_dir_all, remove_dir_all, copy/move file/dir, walk_dir, read_to_string, plus adapter primitives and observers) are run: first fault-free on a replica to count the N trait calls reaching any leaf and to record result R* and post-state S*, then for EVERY k<N (cap 400) on a fresh replica rebuilt by deterministic replay with the k-th call failing with an I/O error (a second pass also counts and fails the reads/writes on file handles handed out by the wrapped filesystems); oracle per injection: no panic, lower overlay layers unchanged, and if the faulted run returns Ok then R* is Ok, the value equals R* and the tree observed with faults disarmed equals S*, and a fixed list of fault-free follow-up calls on the target, its destination and their parents has the same outcomes and leaves the same trees as after a fault-free run (state hidden behind a right-looking listing); PLUS the same enumeration on the async port: memory-backed stacks with every leaf behind PendFS (Pending returns per a generated plan, then the k-th trait call fails), targets walk_dir / copy_dir / move_dir / remove_dir_all / copy_file / create_dir_all, every k < N (cap 250): Ok only with the fault-free value and tree; evaluations = injections; non-trivial = injection at k>=1 into a target making >=2 underlying calls, distinct by (stack, target, k)";
 
 // ---------------------------------------------------------------------------------------------
 // the same enumeration on the async port (faults injected by PendFS after its Pending returns)
